@@ -23,6 +23,9 @@ import (
 
 const universe = 6
 
+// aliasProbe is an element outside every generated universe, used to probe returned sets for shared storage.
+const aliasProbe = E(60001)
+
 // keys of the long delete-heavy histories (genChurn) that drive the dictionary through its rebuilds
 const churnUniverse = 12
 const nRegs = 4
@@ -828,18 +831,26 @@ func (w *world) exec1(op string) string {
 		if !sameList(after, wantAfter) || !sameList(res.ToSlice(), wantRes) {
 			w.fail("omap-order", api, fmt.Sprintf("%s(%v) on %v: now %v want %v; returned %v want %v", api, other, before, after, wantAfter, res.ToSlice(), wantRes))
 		}
+		// the returned set is a value of its own: writing to it shows neither in the argument nor in the receiver
+		shown := showList(res.ToSlice())
+		res.Add(aliasProbe)
+		if o.Has(aliasProbe) || s.Has(aliasProbe) {
+			w.fail("diff-exact", api+"/aliasing", fmt.Sprintf("an element added to the set returned by %s(%v) on %v shows in the argument (%v) or the receiver (%v)", api, other, before, o.Has(aliasProbe), s.Has(aliasProbe)))
+			res.Delete(aliasProbe)
+		}
 
-		return showList(res.ToSlice()) + " | " + showList(after)
+		return shown + " | " + showList(after)
 	case "apply", "compute":
 		s := w.set[num(1)]
 		before := s.ToSlice()
-		var applied ds.SetMutations[E]
+		var applied, requested ds.SetMutations[E]
 		var adds, dels []E
 		api := "Set.Apply"
 		if f[0] == "apply" {
 			a, d := w.argSet(f[2]), w.argSet(f[3])
 			adds, dels = a.ToSlice(), d.ToSlice()
-			applied = s.Apply(ds.NewSetMutations[E]().WithAddedElements(a).WithDeletedElements(d))
+			requested = ds.NewSetMutations[E]().WithAddedElements(a).WithDeletedElements(d)
+			applied = s.Apply(requested)
 		} else {
 			api = "Set.Compute"
 			adds = ds.NewSet(parseList(f[2])...).ToSlice()
@@ -847,8 +858,9 @@ func (w *world) exec1(op string) string {
 			applied = s.Compute(func(rs ds.ReadableSet[E]) ds.SetMutations[E] {
 				del := rs.Filter(func(e E) bool { return dm[e] })
 				dels = del.ToSlice()
+				requested = ds.NewSetMutations(parseList(f[2])...).WithDeletedElements(del)
 
-				return ds.NewSetMutations(parseList(f[2])...).WithDeletedElements(del)
+				return requested
 			})
 		}
 		after := s.ToSlice()
@@ -868,6 +880,33 @@ func (w *world) exec1(op string) string {
 			// no overlap: the returned sets are exactly the membership changes
 			if !sameSet(ra, minus(after, toMap(before))) || !sameSet(rd, minus(before, toMap(after))) {
 				w.fail("diff-exact", api, fmt.Sprintf("%s(+%v -%v) on %v returned +%v -%v, membership changes +%v -%v", api, adds, dels, before, ra, rd, minus(after, toMap(before)), minus(before, toMap(after))))
+			}
+		}
+
+		// the returned mutations are a value of their own: what the caller does with the sets it passed in afterwards does not
+		// change them (an `apply` that hands its argument back when nothing was filtered out would), and writing to the
+		// returned sets shows neither in the requested ones nor in the receiver
+		if requested != nil {
+			qa, qd := requested.AddedElements(), requested.DeletedElements()
+			hadA, hadD := qa.Has(aliasProbe), qd.Has(aliasProbe)
+			qa.Add(aliasProbe)
+			qd.Add(aliasProbe)
+			if applied.AddedElements().Has(aliasProbe) || applied.DeletedElements().Has(aliasProbe) {
+				w.fail("diff-exact", api+"/aliasing", fmt.Sprintf("%s(+%v -%v) on %v: an element added to the requested sets after the call shows in the returned mutations", api, adds, dels, before))
+			}
+			if !hadA {
+				qa.Delete(aliasProbe)
+			}
+			if !hadD {
+				qd.Delete(aliasProbe)
+			}
+			applied.AddedElements().Add(aliasProbe)
+			applied.DeletedElements().Add(aliasProbe)
+			if qa.Has(aliasProbe) || qd.Has(aliasProbe) || s.Has(aliasProbe) {
+				w.fail("diff-exact", api+"/aliasing", fmt.Sprintf("%s(+%v -%v) on %v: an element added to the returned mutations shows in the requested sets or the receiver", api, adds, dels, before))
+				qa.Delete(aliasProbe)
+				qd.Delete(aliasProbe)
+				s.Delete(aliasProbe)
 			}
 		}
 
@@ -1096,6 +1135,10 @@ func (w *world) exec1(op string) string {
 		return w.forced(f[1], f[2])
 	case "overlap":
 		return w.overlap(f[1], num(2))
+	case "inside":
+		return w.inside(f[1], f[2])
+	case "race":
+		return w.race(f[1], num(2))
 	case "stress":
 		seed, _ := strconv.ParseUint(f[4], 10, 64)
 
